@@ -31,6 +31,7 @@ FIXES = [
     ("C02", "fix: break/continue in a while condition", "{X|+} / {x|+}: break/continue emitted in front of the while loop -> 'break' outside loop (410 programs of the context sweep)"),
     ("C02", "fix: break/continue inside a list item", "(⟨X⟩) / (⟨x⟩): break/continue emitted inside def list_item nested in a for loop -> SyntaxError (132 programs)"),
     ("C18", "fix: parameter names keep only ASCII letters", "[^A-z_] lets [ \\ ] ^ ` through: @f:a\\[b\\]|1; emitted VAR_a[b] = pop(...), @f:^|1; emitted unparsable code (1800 payload cases)"),
+    ("C19", "fix: errors during the implicit output are reported", "online mode: an error in the implicit-output phase escaped execute_vyxal (λ`x`; with flag j -> TypeError propagated, error record empty; 1228 of 34944 cases)"),
     ("C02", "fix: the template of ¨…", "the template of ¨… had a positional argument after a keyword argument: every program containing ¨… failed to compile"),
 ]
 
